@@ -1,34 +1,63 @@
 """C03 - interval queries and file matching (DESIGN.md section 3, C03).
 
 Part 1: IntervalTree. All sequences of <=3 (quick) / <=4 (thorough) closed
-intervals over the endpoint line {-2..3}, three numeric types, all query
-intervals and points; oracle = nested loops.
-Part 2: FileSet.match on harness-built filesets (see c03 match shards).
+intervals over the endpoint line {-2..3}, three numeric types, three
+containers, all query intervals and points; oracle = nested loops.
+Part 2: FileSet.match on harness-built filesets (checks/c03_match.py).
 """
 import datetime as dt
 import itertools
+import operator
 import sys
 
 from mc import driver
 driver.setup_env()
 
+import numpy as np                                      # noqa: E402
+
 PROP = "C03"
 LEVEL = "exploration"
-RULE = ("tree part: every sequence (order matters) of 1..L closed intervals "
+RULE = ("tree part: every sequence (order matters) of 0..L closed intervals "
         "[a,b], a<=b, a,b in {-2..3} (L=3 quick, 4 thorough) as int, float "
-        "(x0.5) and datetime (L<=3), each queried with all 21 intervals + 3 "
-        "extreme ones, 13 points, and `in`; match part: all pairs of "
-        "populations (<=2 quick / <=3 thorough files from a 7-file pool) x 10 "
-        "periods x 7 max_interval values (0 s to 49 h). Non-trivial = stored sequence is "
-        "unsorted, nested, duplicated or has a zero endpoint (tree) / at "
-        "least one primary has a partner (match); cases are distinct by "
-        "construction (enumeration without repetition).")
+        "(x0.5) and datetime (L<=3), handed over as list of lists; for "
+        "sequences of <= L-1 intervals also as list of tuples and as numpy "
+        "array (queries and points in the same container); each queried "
+        "with all 21 intervals + 3 extreme ones, 13 points, and `in` (list "
+        "or tuple). match part: all pairs of populations (<=2 quick / <=3 "
+        "thorough files from a 7-file pool) x 10 periods (one of them open "
+        "on both sides) x 7 max_interval values (None, 0 s to 49 h, numbers "
+        "and strings); for pairs of populations with <= 2 (quick) / 4 "
+        "(thorough) files in total also 2 half-open periods x all 12 "
+        "max_interval "
+        "values and all 12 periods x 5 further max_interval values "
+        "(datetime.timedelta, numpy.timedelta64, pandas.Timedelta, 0.5, "
+        "3600.5). filters part: all pairs of populations (>=3 files quick / "
+        ">=1 thorough) of two 4-file pools holding one period under the "
+        "satellite names A, B, C x 3 periods x max_interval {None, 3600} x "
+        "filters {None, sat=A, !sat=A} x other_filters {None, sat=B, "
+        "!sat=B}. Non-trivial = stored sequence is unsorted, nested, "
+        "duplicated or has a zero endpoint (tree) / at least one primary "
+        "has a partner that must be reported (match, filters); cases are "
+        "distinct by construction (enumeration without repetition).")
 ASSUMPTIONS = [
     "endpoints are integers, half-integers or whole seconds",
     "numpy.datetime64 arrays are not accepted by IntervalTree at all (dtype "
     "promotion error in the constructor) and are outside the domain; "
-    "datetime means datetime.datetime objects",
-    "match(): file times are whole seconds (match truncates to seconds)",
+    "datetime means datetime.datetime objects (in an object array for the "
+    "numpy container)",
+    "`[a, b] in tree` is asked with a list or a tuple; a numpy row is not an "
+    "interval for `in` (it is taken for a point)",
+    "the empty set of intervals is in the domain: every query and point "
+    "finds nothing and nothing is `in` the tree",
+    "match(): file times are whole seconds (match truncates to seconds), so "
+    "that max_interval 0.5 / 3600.5 match like 0 / 3600 while the period is "
+    "widened by the exact value; a side of the period that is not given is "
+    "unbounded whatever max_interval is",
+    "match(): secondaries that intersect a primary but lie outside the "
+    "widened period may or may not be reported; a primary that has only such "
+    "partners may or may not be yielded",
+    "filters are single letters (no regular-expression syntax; what a filter "
+    "matches is C01's subject)",
 ]
 
 POINTS = [-2, -1, 0, 1, 2, 3]
@@ -36,6 +65,9 @@ INTERVALS = [(a, b) for a in POINTS for b in POINTS if a <= b]   # 21
 Q_INTERVALS = INTERVALS + [(-2, 3), (-5, -4), (5, 6), (-9, 9)]
 Q_POINTS = POINTS + [-1.5, -0.5, 0.5, 1.5, 2.5] + [-4, 5]
 EPOCH = dt.datetime(2020, 2, 29, 23, 59, 58)
+# how stored intervals, query intervals and query points are handed over:
+# lists of lists, lists of tuples, numpy arrays (int64 / float64 / object)
+CONTAINERS = ("lists", "tuples", "ndarray")
 
 
 def conv(kind):
@@ -53,14 +85,16 @@ def shards(tier, seed):
     maxlen = 3 if tier == "quick" else 4
     out = []
     for kind in ("int", "float", "datetime"):
-        for n in range(1, maxlen + 1):
-            if kind == "datetime" and n > 3:
-                continue
-            if n == 1:
-                out.append(("tree", kind, n, None))
-            else:
-                for first in range(len(INTERVALS)):
-                    out.append(("tree", kind, n, first))
+        for container in CONTAINERS:
+            for n in range(0, maxlen + 1):
+                if n > 3 and kind == "datetime" \
+                        or n > maxlen - 1 and container != "lists":
+                    continue
+                if n < 3:
+                    out.append(("tree", kind, n, None, container))
+                else:
+                    for first in range(len(INTERVALS)):
+                        out.append(("tree", kind, n, first, container))
     from checks import c03_match
     out.extend(c03_match.shards(tier, seed))
     return out
@@ -79,65 +113,77 @@ def nontrivial(seq):
     return False
 
 
-def check_tree(kind, seq):
+def contain(container, rows):
+    """The intervals `rows` (lists of two end points) or a flat list of
+    points in one of the CONTAINERS."""
+    if container == "ndarray":
+        arr = np.array(rows)
+        return arr.reshape(-1, 2) if not rows or isinstance(rows[0], list) \
+            else arr
+    if container == "tuples":
+        return [tuple(r) if isinstance(r, list) else r for r in rows]
+    return rows
+
+
+def guarded(what, fn, *args):
+    """-> (fn(*args), None) or (None, violation) if typhon raises"""
+    try:
+        return fn(*args), None
+    except RecursionError as e:
+        return None, ("tree/%s-exception/RecursionError" % what, None,
+                      repr(e)[:100], "")
+    except Exception as e:
+        return None, ("tree/%s-exception/%s" % (what, type(e).__name__),
+                      None, repr(e), "")
+
+
+def check_tree(kind, seq, container="lists"):
     """Returns None or (key, expected, observed, msg) for the first failing
     query of this stored sequence."""
     from typhon.trees import IntervalTree
     f = conv(kind)
-    stored = [[f(a), f(b)] for a, b in seq]
-    try:
-        tree = IntervalTree(stored)
-    except Exception as e:
-        return ("tree/build-exception/" + type(e).__name__, None, repr(e), "")
+    # `[a, b] in tree` takes a list or a tuple; ndarray rows are neither
+    pair = list if container == "lists" else tuple
+    stored = contain(container, [[f(a), f(b)] for a, b in seq])
+    tree, bad = guarded("build" if seq else "empty-set/build",
+                        IntervalTree, stored)
+    if bad:
+        return bad
     # interval queries
-    qs = [[f(a), f(b)] for a, b in Q_INTERVALS]
-    try:
-        got = tree.query(qs)
-    except RecursionError as e:
-        return ("tree/query-exception/RecursionError", None, repr(e)[:100],
-                "")
-    except Exception as e:
-        return ("tree/query-exception/" + type(e).__name__, None, repr(e), "")
+    qs = contain(container, [[f(a), f(b)] for a, b in Q_INTERVALS])
+    got, bad = guarded("query", tree.query, qs)
+    if bad:
+        return bad
+    if len(got) != len(Q_INTERVALS):
+        return ("tree/query-result-count", len(Q_INTERVALS), len(got), "")
     for (qa, qb), g in zip(Q_INTERVALS, got):
         exp = sorted(i for i, (a, b) in enumerate(seq)
                      if a <= qb and b >= qa)
         if sorted(g) != exp:
             key = "tree/query-" + classify(exp, g)
             return (key, exp, list(g), "query [%s,%s]" % (qa, qb))
-        try:
-            inside = (f(qa), f(qb)) in tree
-        except RecursionError as e:
-            return ("tree/contains-exception/RecursionError", None,
-                    repr(e)[:100], "")
-        except Exception as e:
-            return ("tree/contains-exception/" + type(e).__name__, None,
-                    repr(e), "")
+        inside, bad = guarded("contains", operator.contains, tree,
+                              pair((f(qa), f(qb))))
+        if bad:
+            return bad
         if inside != bool(exp):
             return ("tree/contains-interval", bool(exp), inside,
-                    "(%s,%s) in tree" % (qa, qb))
+                    "%s(%s,%s) in tree" % (pair.__name__, qa, qb))
     # point queries
-    ps = [f(p) for p in Q_POINTS]
-    try:
-        got = tree.query_points(ps)
-    except RecursionError as e:
-        return ("tree/points-exception/RecursionError", None, repr(e)[:100],
-                "")
-    except Exception as e:
-        return ("tree/points-exception/" + type(e).__name__, None, repr(e),
-                "")
+    ps = contain(container, [f(p) for p in Q_POINTS])
+    got, bad = guarded("points", tree.query_points, ps)
+    if bad:
+        return bad
+    if len(got) != len(Q_POINTS):
+        return ("tree/points-result-count", len(Q_POINTS), len(got), "")
     for p, g in zip(Q_POINTS, got):
         exp = sorted(i for i, (a, b) in enumerate(seq) if a <= p <= b)
         if sorted(g) != exp:
             return ("tree/points-" + classify(exp, g), exp, list(g),
                     "point %s" % p)
-        try:
-            inside = f(p) in tree
-        except RecursionError as e:
-            return ("tree/contains-exception/RecursionError", None,
-                    repr(e)[:100], "")
-        except Exception as e:
-            return ("tree/contains-exception/" + type(e).__name__, None,
-                    repr(e), "")
+        inside, bad = guarded("contains", operator.contains, tree, f(p))
+        if bad:
+            return bad
         if inside != bool(exp):
             return ("tree/contains-point", bool(exp), inside,
                     "%s in tree" % p)
@@ -156,10 +202,10 @@ def classify(exp, got):
 
 
 def run_shard(shard):
-    if shard[0] == "match":
+    if shard[0] != "tree":
         from checks import c03_match
         return c03_match.run_shard(shard)
-    _, kind, n, first = shard
+    _, kind, n, first, container = shard
     res = driver.ShardResult()
     if first is None:
         seqs = itertools.product(INTERVALS, repeat=n)
@@ -169,24 +215,26 @@ def run_shard(shard):
     for seq in seqs:
         res.case(nontrivial=nontrivial(seq))
         res.count("tree_queries", len(Q_INTERVALS) * 2 + len(Q_POINTS) * 2)
-        bad = check_tree(kind, seq)
+        bad = check_tree(kind, seq, container)
         if bad is not None:
             key, exp, obs, msg = bad
-            again = check_tree(kind, seq)
+            again = check_tree(kind, seq, container)
             if again != bad:
                 res.error("NONDETERMINISM in %r %r" % (kind, seq))
-            res.violation(key, dict(part="tree", kind=kind, stored=seq),
-                          exp, obs, msg)
+            res.violation(key, dict(part="tree", kind=kind, stored=seq,
+                                    container=container), exp, obs, msg)
     res.sample(dict(part="tree", kind=kind, stored=list(seq),
-                    queries=len(Q_INTERVALS), points=len(Q_POINTS)))
+                    container=container, queries=len(Q_INTERVALS),
+                    points=len(Q_POINTS)))
     return res
 
 
 def replay(case):
-    if case.get("part") == "match":
+    if case.get("part") != "tree":
         from checks import c03_match
         return c03_match.replay(case)
-    bad = check_tree(case["kind"], [tuple(x) for x in case["stored"]])
+    bad = check_tree(case["kind"], [tuple(x) for x in case["stored"]],
+                     case.get("container", "lists"))
     if bad is None:
         return dict(ok=True)
     return dict(ok=False, key=bad[0], expected=bad[1], observed=bad[2],
